@@ -20,7 +20,7 @@ if os.environ.get('PYTHONHASHSEED') is None:
     # fixed hash seed: the harness does not depend on it (self-test proves
     # that), this merely removes one variable from any bug report
     os.environ['PYTHONHASHSEED'] = '0'
-    os.execv(sys.executable, [sys.executable] + sys.argv)
+    os.execv(sys.executable, [sys.executable] + ['-O'] * min(sys.flags.optimize, 1) + sys.argv)
 
 from tapesim import seams                       # noqa: E402  (pins the clock)
 from tapesim import core                        # noqa: E402
@@ -35,12 +35,38 @@ def harness_error(msg):
 def fresh_digests(pid, tier, seed, idxs, hashseed):
     env = dict(os.environ, PYTHONHASHSEED=str(hashseed), VERIF_SEED=str(seed))
     out = subprocess.run(
-        [sys.executable, os.path.join(HERE, 'check.py'), pid, '--tier', tier,
+        [sys.executable] + ['-O'] * min(sys.flags.optimize, 1) +
+        [os.path.join(HERE, 'check.py'), pid, '--tier', tier,
          '--digest', ','.join(str(i) for i in idxs)],
         env=env, capture_output=True, text=True, timeout=900)
     if out.returncode != 0:
         raise HarnessError('digest subprocess failed: ' + out.stderr[-2000:])
     return {int(k): v for k, v in json.loads(out.stdout.strip().splitlines()[-1]).items()}
+
+
+def optimized_pass(pid, tier, seed, jobs, total, budget_s):
+    """The first runs of the batch once more, in an interpreter started with -O
+    (`assert` statements are stripped): the interpreter configuration an embedder
+    chooses must not move a verdict.  Returns (exit code, output, evidence)."""
+    import shutil
+    import tempfile
+    n = max(200, total // 8)
+    evdir = tempfile.mkdtemp(prefix='tsopt.')
+    try:
+        env = dict(os.environ, VERIF_OPT_CHILD='1', VERIF_EVIDENCE_DIR=evdir,
+                   VERIF_BUDGET_S=str(max(20.0, budget_s / 4)), VERIF_SEED=str(seed),
+                   VERIF_JOBS=str(jobs))
+        env.pop('PYTHONOPTIMIZE', None)
+        out = subprocess.run([sys.executable, '-O', os.path.join(HERE, 'check.py'), pid,
+                              '--tier', tier, '--runs', str(n)],
+                             env=env, capture_output=True, text=True, timeout=budget_s * 3 + 900)
+        ev = {}
+        p = os.path.join(evdir, pid + '.json')
+        if os.path.exists(p):
+            ev = json.load(open(p))
+        return out.returncode, out.stdout + out.stderr[-2000:], ev
+    finally:
+        shutil.rmtree(evdir, ignore_errors=True)
 
 
 def cmd_digest(pid, tier, seed, idxs):
@@ -93,9 +119,10 @@ def run_check(pid, tier, seed, jobs, budget_s, runs_override=None):
     # committed replays of known / fixed entries are re-executed first
     notes = []
     regress = None
+    opt_child = os.environ.get('VERIF_OPT_CHILD') == '1'
     for ent in known + fixed:
         rp = ent.get('replay')
-        if not rp:
+        if not rp or opt_child:         # (the parent re-executes the committed replays)
             continue
         path = os.path.join(HERE, rp)
         if not os.path.exists(path):
@@ -187,8 +214,25 @@ def run_check(pid, tier, seed, jobs, budget_s, runs_override=None):
         out_lines.append('VIOLATION property=%s replay=%s' % (pid, replay_path))
         status = 1
 
+    # interpreter-configuration pass
+    optp = None
+    if sys.flags.optimize == 0 and not opt_child and os.environ.get('VERIF_OPT_PASS', '1') != '0':
+        rc, out, oev = optimized_pass(pid, tier, seed, jobs, total, budget_s)
+        if rc not in (0, 1):
+            raise HarnessError('python -O pass failed (exit %d): %s' % (rc, out[-1500:]))
+        optp = {'runs': oev.get('coverage', {}).get('runs', 0),
+                'evaluations': oev.get('coverage', {}).get('evaluations', 0),
+                'violations': oev.get('violations', 0), 'wall_s': oev.get('wall_s')}
+        if rc == 1:
+            for line in out.splitlines():
+                if line.startswith('violation '):
+                    out_lines.append('under python -O: ' + line)
+                elif line.startswith('VIOLATION '):
+                    out_lines.append(line)
+            status = 1
+
     missing = []
-    if tier == 'thorough' and not budget_hit:
+    if tier == 'thorough' and not budget_hit and not opt_child:
         missing = [p for p in getattr(mod, 'REQUIRED_PROBES', [])
                    if not agg['probes'].get(p)]
 
@@ -196,7 +240,8 @@ def run_check(pid, tier, seed, jobs, budget_s, runs_override=None):
     ev = {
         'property_id': pid, 'tier': tier, 'seed': seed, 'level': 'exploration',
         'wall_s': round(wall, 2),
-        'violations': (1 if viol is not None else 0) + (1 if regress else 0),
+        'violations': (1 if viol is not None else 0) + (1 if regress else 0) +
+        (1 if optp and optp['violations'] else 0),
         'coverage': {
             'evaluations': agg['evals'],
             'distinct_nontrivial': len(agg['cells']),
@@ -222,6 +267,7 @@ def run_check(pid, tier, seed, jobs, budget_s, runs_override=None):
             'fixed_replays_quiet': {e.get('commit', '?'): not e.get('replay_reproduces')
                                     for e in fixed},
             'determinism_sample': det,
+            'python_optimize_pass': optp,
             'components': mod.COMPONENTS,
             'workers': jobs,
             'notes': notes,
